@@ -85,7 +85,9 @@ def oracle_run(args):
         TrajectorySH.hop_to_it = orig
     problems = []
     pure = spec["rho"] in ("pure", "basis")
-    tol = 1e-9 if spec["integ"] == "exp" else 1e-6
+    # linear-rk4: positivity/purity hold only up to the accumulated RK4 truncation error (no exact statement exists):
+    # gross violations only; Hermiticity and trace are exact and judged strictly below
+    tol = 1e-9 if spec["integ"] == "exp" else 1e-3
     collapsed = {e["time"] for e in tr.events.get("collapse", [])} if hasattr(tr, "events") else set()
     for s in tr:
         rho = s["density_matrix"]
